@@ -202,7 +202,9 @@ func (pd *perBitData) parseBitString(extensed bool, lowerBoundPtr *int64, upperB
 		}
 	}
 	if ub > 65535 {
+		// X.691 11.9.3.5: with an upper bound of 64K or more the length itself is encoded, not length - lb
 		sizeRange = -1
+		lb = 0
 	}
 	// initailization
 	bitString := BitString{[]byte{}, 0}
@@ -296,7 +298,9 @@ func (pd *perBitData) parseOctetString(extensed bool, lowerBoundPtr *int64, uppe
 		}
 	}
 	if ub > 65535 {
+		// X.691 11.9.3.5: with an upper bound of 64K or more the length itself is encoded, not length - lb
 		sizeRange = -1
+		lb = 0
 	}
 	// initailization
 	octetString := OctetString("")
